@@ -301,7 +301,7 @@ theorem pgss_step (G : GCtx) (n : Nat) (hPS : PGS G n) (hPSs : PGSs G n) : PGSs 
     | ok u =>
       obtain ⟨hfr, mem1, hrun1, hml1, hrel1⟩ := h1
       simp only []
-      have hsp1 := hsp.scopes_out st1 hfr
+      have hsp1 := hsp.scopes_out st1 hfr hrun1.inv
       have hls1 : lscopes = (cgS G.mod A.src A.φ loops st env).2.scopes.drop d := by
         rw [hls, drop_of_tail_eq (cgS_tail G.mod A.src A.φ loops st env) d hd]
       have h2 := hPSs A hA loops lscopes d ss (cgS G.mod A.src A.φ loops st env).2 st1
